@@ -63,6 +63,35 @@ fn main() {
             let code = props::replay(&args[2], &args[3]);
             std::process::exit(code);
         }
+        "one" => {
+            // one <route> <width> <deco> <html>   (quick probe: default options)
+            let route: u32 = args[2].parse().unwrap();
+            let width: usize = args[3].parse().unwrap();
+            let deco: u8 = args[4].parse().unwrap();
+            let mut cfg = core::Cfg { deco, ..Default::default() };
+            let mut i = 6;
+            while i < args.len() {
+                match args[i].as_str() {
+                    "doccss" => cfg.doc_css = true,
+                    "pad" => cfg.pad = true,
+                    "overflow" => cfg.overflow = true,
+                    "raw" => cfg.raw = 1,
+                    "noborders" => cfg.no_borders = true,
+                    "nolinkwrap" => cfg.no_link_wrap = true,
+                    "footnotes" => cfg.footnotes = 1,
+                    "nofootnotes" => cfg.footnotes = 2,
+                    "nostrike" => cfg.strike = 2,
+                    x if x.starts_with("maxwrap=") => cfg.max_wrap = Some(x[8..].parse().unwrap()),
+                    x if x.starts_with("minwrap=") => cfg.min_wrap = Some(x[8..].parse().unwrap()),
+                    x if x.starts_with("css=") => cfg.user_css.push(x[4..].to_string()),
+                    x if x.starts_with("agentcss=") => cfg.agent_css.push(x[9..].to_string()),
+                    _ => {}
+                }
+                i += 1;
+            }
+            let o = core::run_impl(&cfg, route, width, args[5].as_bytes());
+            println!("{:#?}", o);
+        }
         "glyphs" => {
             props::print_glyphs();
         }
